@@ -764,6 +764,11 @@ func (r *rsRun) item(it string) (body []byte, content bool, desc string, ok bool
 			}
 			r.srv.mu.Unlock()
 			b = rsCat(rsU32(rsCrcContainer), rsU32(1), rsU64(mid), rsU32(seq), rsU32(uint32(len(b))), b)
+			if d > 64 && lvl == d-10 {
+				// a very deep message is described down to its ninth level only ("deep" = further containers):
+				// no client looks further than maxContainerDepth, and the trace stays readable
+				desc = "deep"
+			}
 			desc = fmt.Sprintf("cont[%d:%d:%s]", mid, seq, desc)
 			content = false
 		}
@@ -949,17 +954,24 @@ type rsSent struct { // server -> client message (flattened: container members a
 	desc string
 }
 
+// rsMaxContainerDepth: containers nested deeper are refused by the client as a whole (one warning), their
+// members are never looked at (mtproto.go maxContainerDepth; the Lean model has the same constant)
+const rsMaxContainerDepth = 4
+
 func rsFlattenR(ev string) []rsSent {
 	// R:<mid>:<seq>:<desc>   desc may be cont[mid:seq:desc|...], members may be containers themselves
 	parts := strings.SplitN(ev, ":", 4)
 	mid, _ := strconv.ParseUint(parts[1], 10, 64)
 	seq, _ := strconv.ParseUint(parts[2], 10, 32)
-	return rsFlattenDesc(mid, uint32(seq), parts[3])
+	return rsFlattenDesc(mid, uint32(seq), parts[3], 0)
 }
 
-func rsFlattenDesc(mid uint64, seq uint32, desc string) []rsSent {
+func rsFlattenDesc(mid uint64, seq uint32, desc string, depth int) []rsSent {
 	if !strings.HasPrefix(desc, "cont[") {
 		return []rsSent{{mid, seq, desc}}
+	}
+	if depth >= rsMaxContainerDepth {
+		return []rsSent{{mid, seq, "toodeep"}}
 	}
 	out := []rsSent{{mid, seq, "cont"}}
 	for _, in := range rsSplitTop(strings.TrimSuffix(desc[5:], "]"), '|') {
@@ -969,7 +981,7 @@ func rsFlattenDesc(mid uint64, seq uint32, desc string) []rsSent {
 		p := strings.SplitN(in, ":", 3)
 		m, _ := strconv.ParseUint(p[0], 10, 64)
 		q, _ := strconv.ParseUint(p[1], 10, 32)
-		out = append(out, rsFlattenDesc(m, uint32(q), p[2])...)
+		out = append(out, rsFlattenDesc(m, uint32(q), p[2], depth+1)...)
 	}
 	return out
 }
